@@ -1,13 +1,494 @@
-//! C10 — stub (not built yet; not registered in MANIFEST.json).
-use super::*;
+//! C10 — the cell store stays coherent under any history of operations.
+//!
+//! One sheet of a small workbook, a history of 1..60 public operations (get_cell_mut,
+//! set_cell, remove_cell, set_style, set_style_by_range for cell/row/column ranges,
+//! insert/remove rows/columns, move_range, copy_range, cleanup, copy_row_styling,
+//! copy_col_styling, interleaved saves).  Operations are resolved against the sheet's own
+//! current content (public getters), so arguments are always in range.
+//!
+//! Oracle after EVERY operation, with E = the cells of `get_collection_to_hashmap()`:
+//! * every map key equals the cell's own coordinate;
+//! * `get_cell(c)` is `Some` exactly for c in E (probed at every cell, its four
+//!   neighbours and fixed absent positions) and the cell found reports c;
+//! * `get_cell_collection`, `get_cell_collection_sorted` (strictly ascending by row,
+//!   column), `get_collection_by_row` / `_by_column` (+ `_to_hashmap`) for every used and
+//!   some unused indices, `get_cell_value_by_range` on rectangles around the content,
+//!   `get_highest_column_and_row` (+ `get_highest_row/column`) and
+//!   `calculate_worksheet_dimension` equal the brute-force answer over E; no duplicates.
+//! * no cell is lost: operations that delete nothing by their documented meaning
+//!   (get_cell_mut, set_cell/set value/remove_cell apart from the addressed cell, styling
+//!   calls, save) keep every existing cell with its value; inserts keep the multiset of
+//!   values (what removals, move, copy and cleanup delete is C07's business).
+//! On save (`Save` ops and once at the end): every row that holds a cell of E is in
+//! `get_row_dimensions()`; the bytes written by `write_writer`, read back with the
+//! library's own `read_reader`, contain every cell of E that has a non-empty value, at
+//! its coordinate, with its value.
+//!
+//! A panic inside an observer, or at one of the store's own index->map `unwrap()`s
+//! (`structs/cells.rs`), is incoherence.  A panic elsewhere inside a mutating operation is
+//! not judged by this property (the statement speaks about the state after operations):
+//! the history stops there and the case is labelled.
+use super::Prop;
+use crate::engine::*;
+use crate::gen::grid::*;
+use crate::model::grid::*;
+use proptest::prelude::*;
+use serde::{Deserialize, Serialize};
+use std::collections::{BTreeMap, BTreeSet};
+use umya_spreadsheet::{Spreadsheet, Worksheet};
 
 pub fn prop() -> Prop {
     Prop {
         id: "C10",
-        describe: |_| {},
-        subs: no_subs,
-        extra: no_extra,
-        replay_extra: no_replay_extra,
-        watchdog_s: (900, 7200),
+        describe,
+        subs,
+        extra: super::no_extra,
+        replay_extra: super::no_replay_extra,
+        watchdog_s: (900, 14400),
     }
+}
+
+fn describe(ctx: &Ctx) {
+    ctx.rule("one sheet built through the public API (valued/styled cells at small, boundary and near-limit positions, row/column settings) x histories of 1..60 operations {get_cell_mut, set_cell, set value, remove_cell, set_style, set_style_by_range (cell, row and column ranges), insert/remove rows/columns, move_range, copy_range, cleanup, copy_row_styling, copy_col_styling, save}; after every operation all lookups/listings are compared with a brute-force scan of get_collection_to_hashmap(), saves are read back with the library's reader. Non-trivial = the history has a structural shift (insert/remove rows/columns, move, copy) followed later by a remove_cell, cleanup, set_cell or save; distinct by serialised case");
+    ctx.assume("arguments are resolved against the sheet's current content so that they are in range: inserts never push content past the grid, move/copy destinations stay inside it, bulk styling calls are bounded to 64 rows/columns");
+    ctx.assume("set_style_by_range with a row range (\"3:5\") or a column range (\"B:D\") is generated, but on this tree it always panics in helper/range.rs (\"Non-standard range.\") before the sheet is touched; that is not a cell-store matter: the op is labelled and the history continues on the unchanged state");
+    ctx.assume("'non-empty cell' on save = a cell of E whose get_value() is not the empty string");
+}
+
+#[derive(Clone, Debug, Serialize, Deserialize)]
+pub struct Case {
+    pub sheet: SheetSpec,
+    pub ops: Vec<AOp>,
+}
+
+fn op_kinds() -> Vec<(u32, AKind)> {
+    vec![
+        (2, AKind::GetCellMut),
+        (2, AKind::SetCell),
+        (2, AKind::SetValue),
+        (3, AKind::RemoveCell),
+        (1, AKind::SetStyle),
+        (1, AKind::StyleRange),
+        (1, AKind::StyleRows),
+        (1, AKind::StyleCols),
+        (2, AKind::InsertRows),
+        (2, AKind::InsertCols),
+        (2, AKind::RemoveRows),
+        (2, AKind::RemoveCols),
+        (2, AKind::Move),
+        (2, AKind::Copy),
+        (1, AKind::Cleanup),
+        (1, AKind::CopyRowStyling),
+        (1, AKind::CopyColStyling),
+        (1, AKind::Save),
+    ]
+}
+
+fn strategy(t: Tier) -> BoxedStrategy<Case> {
+    (sheet_spec(t.pick(14, 28), false), prop::collection::vec(aop(op_kinds()), 1..=60))
+        .prop_map(|(sheet, ops)| Case { sheet, ops })
+        .boxed()
+}
+
+fn subs() -> Vec<Box<dyn DynSub>> {
+    vec![Box::new(Sub {
+        name: "history",
+        strategy,
+        cases: (800, 20000),
+        check,
+        max_shrink_iters: 6000,
+    })]
+}
+
+// ---------------------------------------------------------------------------------------
+// coherence oracle
+
+type Pos = (u32, u32); // (row, col)
+
+fn fail(what: &str, mode: &str, detail: String) -> Option<(String, String)> {
+    Some((format!("{}/{}", what, mode), detail))
+}
+
+fn own(c: &umya_spreadsheet::Cell) -> Pos {
+    (*c.get_coordinate().get_row_num(), *c.get_coordinate().get_col_num())
+}
+
+fn show(p: Pos) -> String {
+    format!("{}{}", col_name(p.1), p.0)
+}
+
+/// Compare a listing (own coordinates of the returned cells) with the expected set.
+fn listing_diff(name: &str, got: &mut Vec<Pos>, want: &BTreeSet<Pos>) -> Option<(String, String)> {
+    let n = got.len();
+    got.sort();
+    let mut dedup = got.clone();
+    dedup.dedup();
+    if dedup.len() != n {
+        return fail(name, "duplicate", format!("{} lists a cell twice: {:?}", name, got.iter().map(|p| show(*p)).collect::<Vec<_>>()));
+    }
+    let gs: BTreeSet<Pos> = got.iter().copied().collect();
+    let lost: Vec<String> = want.difference(&gs).map(|p| show(*p)).collect();
+    let extra: Vec<String> = gs.difference(want).map(|p| show(*p)).collect();
+    if !lost.is_empty() {
+        return fail(name, "lost", format!("{} misses existing cells {:?} (extra {:?})", name, lost, extra));
+    }
+    if !extra.is_empty() {
+        return fail(name, "phantom", format!("{} lists cells that do not exist: {:?}", name, extra));
+    }
+    None
+}
+
+/// All coherence invariants of the statement; `probe` adds one caller-chosen position.
+pub fn coherence(ws: &Worksheet, probe: Pos) -> Option<(String, String)> {
+    // E: brute-force scan of the set of existing cells
+    let map = ws.get_collection_to_hashmap();
+    let mut e: BTreeMap<Pos, String> = BTreeMap::new();
+    for (k, cell) in map.iter() {
+        let o = own(cell);
+        if *k != o {
+            return fail(
+                "store",
+                "key-differs-from-own-coordinate",
+                format!("map key (row {}, col {}) holds a cell that reports {}", k.0, k.1, show(o)),
+            );
+        }
+        e.insert(o, cell.get_value().to_string());
+    }
+    let set: BTreeSet<Pos> = e.keys().copied().collect();
+
+    // lookup by coordinate: every existing cell, its neighbours, fixed absent positions
+    let mut probes: BTreeSet<Pos> = set.clone();
+    for &(r, c) in &set {
+        for (dr, dc) in [(0i64, 1i64), (1, 0), (0, -1), (-1, 0)] {
+            let (nr, nc) = (r as i64 + dr, c as i64 + dc);
+            if nr >= 1 && nr <= MAX_ROW as i64 && nc >= 1 && nc <= MAX_COL as i64 {
+                probes.insert((nr as u32, nc as u32));
+            }
+        }
+    }
+    probes.extend([(1, 1), (MAX_ROW, MAX_COL), (1, MAX_COL), (MAX_ROW, 1), (7, 7), probe]);
+    for &(r, c) in &probes {
+        let found = ws.get_cell((c, r));
+        match (found, set.contains(&(r, c))) {
+            (None, true) => return fail("lookup", "existing-cell-not-found", format!("get_cell({}) is None but the cell exists", show((r, c)))),
+            (Some(x), false) => {
+                return fail("lookup", "absent-cell-found", format!("get_cell({}) found a cell reporting {} that is not in the store", show((r, c)), show(own(x))))
+            }
+            (Some(x), true) => {
+                if own(x) != (r, c) {
+                    return fail("lookup", "reports-other-coordinate", format!("get_cell({}) reports {}", show((r, c)), show(own(x))));
+                }
+                if ws.get_value((c, r)) != e[&(r, c)] {
+                    return fail("lookup", "value-differs", format!("get_value({}) = {:?}, the stored cell holds {:?}", show((r, c)), ws.get_value((c, r)), e[&(r, c)]));
+                }
+            }
+            (None, false) => {}
+        }
+    }
+
+    // unordered and sorted listings
+    let mut got: Vec<Pos> = ws.get_cell_collection().iter().map(|c| own(c)).collect();
+    if let Some(x) = listing_diff("get_cell_collection", &mut got, &set) {
+        return Some(x);
+    }
+    let sorted: Vec<Pos> = ws.get_cell_collection_sorted().iter().map(|c| own(c)).collect();
+    for w in sorted.windows(2) {
+        if w[0] >= w[1] {
+            return fail(
+                "get_cell_collection_sorted",
+                "not-strictly-ascending",
+                format!("{} is followed by {}", show(w[0]), show(w[1])),
+            );
+        }
+    }
+    let mut got = sorted.clone();
+    if let Some(x) = listing_diff("get_cell_collection_sorted", &mut got, &set) {
+        return Some(x);
+    }
+
+    // by row / by column, used and unused indices
+    let max_row = set.iter().map(|p| p.0).max().unwrap_or(0);
+    let max_col = set.iter().map(|p| p.1).max().unwrap_or(0);
+    let mut rows: BTreeSet<u32> = set.iter().map(|p| p.0).collect();
+    let mut cols: BTreeSet<u32> = set.iter().map(|p| p.1).collect();
+    for extra in [1u32, 2, probe.0, max_row + 1, max_row.saturating_sub(1).max(1)] {
+        if extra <= MAX_ROW {
+            rows.insert(extra);
+        }
+    }
+    for extra in [1u32, 2, probe.1, max_col + 1, max_col.saturating_sub(1).max(1)] {
+        if extra <= MAX_COL {
+            cols.insert(extra);
+        }
+    }
+    for &r in &rows {
+        let want: BTreeSet<Pos> = set.iter().copied().filter(|p| p.0 == r).collect();
+        let mut got: Vec<Pos> = ws.get_collection_by_row(&r).iter().map(|c| own(c)).collect();
+        if let Some(x) = listing_diff("get_collection_by_row", &mut got, &want) {
+            return Some((x.0, format!("row {}: {}", r, x.1)));
+        }
+        let hm = ws.get_collection_by_row_to_hashmap(&r);
+        let keys: BTreeSet<u32> = hm.keys().copied().collect();
+        let want_keys: BTreeSet<u32> = want.iter().map(|p| p.1).collect();
+        if keys != want_keys || hm.iter().any(|(k, c)| own(c) != (r, *k)) {
+            return fail("get_collection_by_row_to_hashmap", "differs", format!("row {}: columns {:?}, expected {:?}", r, keys, want_keys));
+        }
+    }
+    for &c in &cols {
+        let want: BTreeSet<Pos> = set.iter().copied().filter(|p| p.1 == c).collect();
+        let mut got: Vec<Pos> = ws.get_collection_by_column(&c).iter().map(|x| own(x)).collect();
+        if let Some(x) = listing_diff("get_collection_by_column", &mut got, &want) {
+            return Some((x.0, format!("column {}: {}", c, x.1)));
+        }
+        let hm = ws.get_collection_by_column_to_hashmap(&c);
+        let keys: BTreeSet<u32> = hm.keys().copied().collect();
+        let want_keys: BTreeSet<u32> = want.iter().map(|p| p.0).collect();
+        if keys != want_keys || hm.iter().any(|(k, x)| own(x) != (*k, c)) {
+            return fail("get_collection_by_column_to_hashmap", "differs", format!("column {}: rows {:?}, expected {:?}", c, keys, want_keys));
+        }
+    }
+
+    // by range: rectangles around the first cell, the last cell and the probe
+    let mut rects: Vec<Rect> = Vec::new();
+    let around = |r: u32, c: u32, up: u32, left: u32| {
+        let r1 = r.saturating_sub(up).max(1);
+        let c1 = c.saturating_sub(left).max(1);
+        Rect::new(r1, c1, (r1 + 4).min(MAX_ROW), (c1 + 4).min(MAX_COL))
+    };
+    if let Some(&(r, c)) = set.iter().next() {
+        rects.push(around(r, c, 0, 0));
+    }
+    if let Some(&(r, c)) = set.iter().next_back() {
+        rects.push(around(r, c, 4, 4));
+    }
+    rects.push(around(probe.0, probe.1, 2, 2));
+    for rect in rects {
+        let got: Vec<String> = ws.get_cell_value_by_range(&rect.a1()).iter().map(|v| v.get_value().to_string()).collect();
+        let mut want: Vec<String> = Vec::new();
+        for r in rect.r1..=rect.r2 {
+            for c in rect.c1..=rect.c2 {
+                want.push(e.get(&(r, c)).cloned().unwrap_or_default());
+            }
+        }
+        if got != want {
+            return fail("get_cell_value_by_range", "differs", format!("range {}: {:?}, expected {:?}", rect.a1(), got, want));
+        }
+    }
+
+    // highest row / column, dimension
+    let hi = ws.get_highest_column_and_row();
+    if hi != (max_col, max_row) || ws.get_highest_column() != max_col || ws.get_highest_row() != max_row {
+        return fail(
+            "get_highest_column_and_row",
+            "differs",
+            format!("(col,row) = {:?} / {} / {}, brute force ({}, {})", hi, ws.get_highest_column(), ws.get_highest_row(), max_col, max_row),
+        );
+    }
+    let dim = ws.calculate_worksheet_dimension();
+    let want = if set.is_empty() { "A1".to_string() } else { format!("A1:{}{}", col_name(max_col), max_row) };
+    if dim != want {
+        return fail("calculate_worksheet_dimension", "differs", format!("{:?}, expected {:?}", dim, want));
+    }
+    None
+}
+
+/// Save leg: rows known to the writer, every non-empty cell emitted.
+pub fn save_check(book: &Spreadsheet) -> Option<(String, String)> {
+    let ws = book.get_sheet(&0).unwrap();
+    let known: BTreeSet<u32> = ws.get_row_dimensions().iter().map(|r| *r.get_row_num()).collect();
+    let mut valued: BTreeMap<Pos, String> = BTreeMap::new();
+    for cell in ws.get_collection_to_hashmap().values() {
+        let o = own(cell);
+        if !known.contains(&o.0) {
+            return fail("save", "row-unknown-to-writer", format!("cell {} exists but row {} is not in get_row_dimensions()", show(o), o.0));
+        }
+        let v = cell.get_value().to_string();
+        if !v.is_empty() {
+            valued.insert(o, v);
+        }
+    }
+    let mut bytes: Vec<u8> = Vec::new();
+    match umya_spreadsheet::writer::xlsx::write_writer(book, &mut bytes) {
+        Ok(()) => {}
+        Err(e) => return fail("save", "write-error", format!("{:?}", e)),
+    }
+    let back = match umya_spreadsheet::reader::xlsx::read_reader(std::io::Cursor::new(bytes), true) {
+        Ok(b) => b,
+        Err(e) => return fail("save", "own-reader-rejects-file", format!("{:?}", e)),
+    };
+    let ws2 = back.get_sheet(&0).unwrap();
+    // the reloaded sheet is a cell store as well (filled by the reader's own insert path)
+    if let Some((k, d)) = coherence(ws2, (3, 3)) {
+        return Some((format!("reloaded/{}", k), format!("after save + reload: {}", d)));
+    }
+    for (&(r, c), v) in &valued {
+        match ws2.get_cell((c, r)) {
+            None => return fail("save", "cell-not-emitted", format!("cell {} = {:?} is missing from the saved sheet", show((r, c)), v)),
+            Some(x) => {
+                if x.get_value() != v.as_str() {
+                    return fail("save", "cell-value-differs", format!("cell {} = {:?} was saved as {:?}", show((r, c)), v, x.get_value()));
+                }
+            }
+        }
+    }
+    None
+}
+
+/// Brute-force scan: own coordinate -> value text of every existing cell.
+fn scan(ws: &Worksheet) -> BTreeMap<Pos, String> {
+    ws.get_collection_to_hashmap().values().map(|c| (own(c), c.get_value().to_string())).collect()
+}
+
+/// "No cell is lost": operations that by their documented meaning delete nothing must keep
+/// every existing cell (with its value); inserts must keep the multiset of values.
+/// Removals, move, copy and cleanup delete by design and are C07's business.
+fn content_check(op: &COp, before: &BTreeMap<Pos, String>, after: &BTreeMap<Pos, String>) -> Option<(String, String)> {
+    let kind = op.kind_name();
+    let touched: Option<Pos> = match op {
+        COp::SetValue { row, col, .. } | COp::SetCell { row, col, .. } | COp::RemoveCell { row, col, .. } => Some((*row, *col)),
+        _ => None,
+    };
+    match op {
+        COp::Insert { .. } => {
+            let mut a: Vec<&String> = before.values().collect();
+            let mut b: Vec<&String> = after.values().collect();
+            a.sort();
+            b.sort();
+            if a != b {
+                return fail("content", &format!("lost-by-{}", kind), format!("cell values before {:?}, after {:?}", a, b));
+            }
+        }
+        COp::GetCellMut { .. }
+        | COp::SetStyle { .. }
+        | COp::StyleRange { .. }
+        | COp::StyleRows { .. }
+        | COp::StyleCols { .. }
+        | COp::CopyRowStyling { .. }
+        | COp::CopyColStyling { .. }
+        | COp::SetValue { .. }
+        | COp::SetCell { .. }
+        | COp::RemoveCell { .. } => {
+            for (pos, v) in before {
+                if Some(*pos) == touched {
+                    continue;
+                }
+                if after.get(pos) != Some(v) {
+                    return fail(
+                        "content",
+                        &format!("lost-by-{}", kind),
+                        format!("cell {} = {:?} became {:?}", show(*pos), v, after.get(pos)),
+                    );
+                }
+            }
+            if let COp::RemoveCell { row, col, .. } = op {
+                if after.contains_key(&(*row, *col)) {
+                    return fail("content", "remove-cell-left-the-cell", format!("cell {} still exists", show((*row, *col))));
+                }
+            }
+        }
+        _ => {}
+    }
+    None
+}
+
+fn is_shift(op: &COp) -> bool {
+    matches!(op, COp::Insert { .. } | COp::Remove { .. } | COp::Move { .. } | COp::Copy { .. })
+}
+
+fn is_follow_up(op: &COp) -> bool {
+    matches!(op, COp::RemoveCell { .. } | COp::Cleanup { .. } | COp::Save | COp::SetCell { .. })
+}
+
+fn check(case: &Case, obs: &mut Obs) -> Verdict {
+    let mut tags = Tags::default();
+    // cells and dimension settings only: the merge/comment variants of `far` belong to C07
+    let mut sheet = case.sheet.clone();
+    if sheet.far >= 6 {
+        sheet.far -= 5;
+    }
+    let built = guard(|| build_book(std::slice::from_ref(&sheet), &mut tags));
+    let (mut book, _model) = match built {
+        Ok(x) => x,
+        Err(p) => return Verdict::fail(format!("build/panic:{}", p.site()), p.short()),
+    };
+    let mut trace: Vec<String> = Vec::new();
+    let mut shifted = false;
+    let judge = |r: Result<Option<(String, String)>, PanicInfo>, phase: &str, trace: &Vec<String>| -> Option<Verdict> {
+        match r {
+            Err(p) => Some(Verdict::fail(
+                format!("{}/panic:{}", phase, p.site()),
+                format!("{} ; history: {}", p.short(), trace.join("; ")),
+            )),
+            Ok(Some((key, detail))) => Some(Verdict::fail(key, format!("{} ; history: {}", detail, trace.join("; ")))),
+            Ok(None) => None,
+        }
+    };
+    if let Some(v) = judge(guard(|| coherence(book.get_sheet(&0).unwrap(), (3, 3))), "observer", &trace) {
+        return v;
+    }
+    for (i, aop) in case.ops.iter().enumerate() {
+        let occ = Occ::from_sheet(book.get_sheet(&0).unwrap());
+        let mut cx = ResolveCtx {
+            occ: &occ,
+            sheet: 0,
+            allow_partial: true,
+            tags: &mut tags,
+            steered: 0,
+            bulk_limit: 64,
+        };
+        let op = match resolve(aop, &mut cx) {
+            Resolved::Skip(why) => {
+                obs.class(format!("skipped:{}", why));
+                continue;
+            }
+            Resolved::Op(op) => op,
+        };
+        let kind = op.kind_name();
+        trace.push(format!("#{} {:?}", i, op));
+        let before = scan(book.get_sheet(&0).unwrap());
+        if op == COp::Save {
+            if let Some(v) = judge(guard(|| save_check(&book)), "save", &trace) {
+                return v;
+            }
+        } else if let Err(p) = guard(|| apply_lib(&mut book, &op)) {
+            if p.site().ends_with("structs/cells.rs") {
+                return Verdict::fail(
+                    format!("op-{}/panic:{}", kind, p.site()),
+                    format!("{} ; history: {}", p.short(), trace.join("; ")),
+                );
+            }
+            obs.class(format!("op-panicked:{}:{}", kind, p.site()));
+            if p.site().ends_with("helper/range.rs") {
+                // the range string was rejected while it was being parsed, before the
+                // sheet was touched (set_style_by_range with a row or column range):
+                // the state is unchanged, the history goes on
+                trace.pop();
+                continue;
+            }
+            return Verdict::Pass;
+        }
+        obs.class(format!("op:{}", kind));
+        if shifted && is_follow_up(&op) {
+            obs.nontrivial(true);
+        }
+        if is_shift(&op) {
+            shifted = true;
+        }
+        let probe = (row_of(aop.d), col_of(aop.e));
+        if let Some(v) = judge(guard(|| coherence(book.get_sheet(&0).unwrap(), probe)), "observer", &trace) {
+            return v;
+        }
+        let after = scan(book.get_sheet(&0).unwrap());
+        if let Some(v) = judge(Ok(content_check(&op, &before, &after)), "content", &trace) {
+            return v;
+        }
+    }
+    trace.push("final save".into());
+    if shifted {
+        obs.nontrivial(true);
+    }
+    if let Some(v) = judge(guard(|| save_check(&book)), "save", &trace) {
+        return v;
+    }
+    Verdict::Pass
 }
